@@ -117,6 +117,10 @@ def spec_of(pname, ty):
         return (None, None, '&mut ZW', 'ZW: ZeroCopyWriter')
     if t == '&mut dyn ZeroCopyReader':
         return (None, None, '&mut ZR', 'ZR: ZeroCopyReader')
+    if t.startswith('&mut dyn FnMut(DirEntry'):
+        # the add_entry callback is abstracted by its two free parameters: the cursor it appends to and the size limit
+        # it enforces (Server::do_readdir passes `&mut |d| add_dirent(&mut cursor, max, d, ..)`)
+        return ('u32', 'max', "&mut Writer<'_, S>, max: u32", 'S: BitmapSlice')
     if t == '&mut dyn FsCacheReqHandler':
         return (None, None, '&mut FsCacheReq', None)
     if t == 'stat64':
@@ -126,7 +130,7 @@ def spec_of(pname, ty):
     return (t, pname, t, None)
 
 
-def gen_trait(root, notes, server=False):
+def gen_trait(root, notes, server=False, dirsink=False):
     ms = parse_methods(root)
     L = []
     L.append('// ---- model of trait FileSystem, generated from %s (%d methods)' % (FILE, len(ms)))
@@ -137,10 +141,12 @@ def gen_trait(root, notes, server=False):
     L.append('    spec fn ids_ok(&self, uid: u32, gid: u32) -> bool;      // owner ids a setattr may carry')
     if server:
         L.append('    spec fn res_read_data(&self) -> Seq<u8>;                // the bytes a read produced into the writer it was given')
+    if dirsink:
+        L.append('    spec fn res_dir_data(&self) -> Seq<u8>;                 // the directory entries a readdir(plus) got appended to the reply')
     info = {}
     seen_res = set()
     for m in ms:
-        if m['name'] in OMIT:
+        if m['name'] in OMIT and not dirsink:
             notes.append('fsmodel: method %s omitted (&mut dyn FnMut parameter)' % m['name'])
             continue
         sargs, sexprs, eparams, gens = [], [], [], []
@@ -151,6 +157,11 @@ def gen_trait(root, notes, server=False):
                 mut_ctx = True
             if g and g not in gens:
                 gens.append(g)
+            if t.startswith('&mut dyn FnMut(DirEntry'):
+                eparams.append('cursor: %s' % et)
+                sargs.append('max: u32')
+                sexprs.append('max')
+                continue
             eparams.append('%s: %s' % (n, et))
             if st is not None:
                 sargs.append('%s: %s' % (n, st))
@@ -189,6 +200,12 @@ def gen_trait(root, notes, server=False):
         if server and ret and ret.startswith('io::Result'):
             # T8: an error returned by a filesystem carries a positive errno
             ens.append('res is Err ==> err_ok(res->Err_0)')
+        if name in ('readdir', 'readdirplus'):
+            # T8: a filesystem only calls add_entry (any number of times, stopping at the first error it returns) - so the
+            # cursor only grows by what add_dirent appends (proved for add_dirent: whole 8-byte aligned entries within `max`)
+            L.insert(len(L) - 0, '            old(cursor).buffered@, // [assert]')
+            ens.append('final(cursor).frame_same(old(cursor)) && final(cursor).emitted@ == old(cursor).emitted@ && final(cursor).buf@.len() <= final(cursor).cap@')
+            ens.append('res is Ok ==> final(cursor).buf@ == old(cursor).buf@ + self.res_dir_data() && self.res_dir_data().len() % 8 == 0 && (old(cursor).buf@.len() == 0 ==> self.res_dir_data().len() <= max)')
         if name == 'read':
             # T8 (DESIGN section 8): a filesystem's read returns the number of bytes it put into the writer, and only appends
             ens.append('zw_appended(*old(w), *final(w), res)')
